@@ -299,6 +299,10 @@ func (ex *Explorer) runPath(solver *Solver, prefix []Decision) (res *PathResult,
 	}
 	m.callSSA(nil, token.NoPos, ex.harness, nil, nil)
 	res.End = "complete"
+	if solver.Lost {
+		res.End, res.Msg = "inconclusive", "solver gave no answer long after its timeout and was restarted; this path is undecided"
+		return
+	}
 	if s := solver.Unsupported(); s != "" {
 		res.End, res.Msg = "inconclusive", "term not encodable: "+s
 		return
@@ -467,6 +471,9 @@ func init() {
 				return lo
 			}
 			t := m.fresh(a[0], "int", 64, true)
+			if lo > -rngCap && hi < rngCap {
+				t.rlo, t.rhi, t.rstate = lo, hi, 1 // static range: lets narrow arithmetic on it be printed without wrap-around
+			}
 			m.assertPC(mkAnd(mkCmp("le", mkConst(lo, 64, true), t), mkCmp("le", t, mkConst(hi, 64, true))))
 			return t
 		},
